@@ -2,6 +2,8 @@
 mod c03;
 mod c05;
 mod c18;
+mod codec_gen;
+mod codec_ref;
 
 use vcore::{Args, Report};
 
